@@ -598,7 +598,7 @@ func TestC07ForkChoice(t *testing.T) {
 	rec := ev.New("C07", "forkchoice")
 	defer rec.Flush()
 	rapid.Check(t, func(t *rapid.T) {
-		record(rec, runCase(t, cfg{rec: rec, compete: true, prop: "C07", invalidPct: 10, forged: false, minBlocks: 3, maxBlocks: 10, maxTx: 4}))
+		record(rec, runCase(t, cfg{rec: rec, compete: true, prop: "C07", invalidPct: 8, forged: false, minBlocks: 4, maxBlocks: 12, maxTx: 3}))
 	})
 }
 
